@@ -16,6 +16,7 @@ ASSUMPTIONS = ['SimWorker reproduces the result-pipe protocol of the real persis
 SHRINK = 'greedy'
 SHRINK_RUNS = 400
 TIME_BUDGET = {'quick': 150, 'thorough': 1500}
+FUZZ = {'quick': (2, 3000), 'thorough': (4, 150000)}     # coverage-guided shards: (processes, libFuzzer runs each); pool.py instrumented
 REQUIRED = {
     'quick': {'death_with_unread_result': 100, 'death_while_enqueueing': 100, 'all_dead': 100, 'poison_reaches_every_worker': 20,
               'refusing_enqueue_fn': 100, 'extra_pending_multi_worker': 100, 'per_worker_callable_source': 100, 'realpool': 30, 'realpool_sigkill': 8,
